@@ -8,6 +8,7 @@ import (
 	"math"
 	"os"
 	"os/exec"
+	"sync"
 	"regexp"
 	"strconv"
 	"strings"
@@ -261,6 +262,8 @@ type RunOptions struct {
 // oneShot is a context whose Done() is closed for exactly one poll.
 type oneShot struct {
 	context.Context
+	mu     sync.Mutex
+	fired  bool
 	k, n   int
 	closed chan struct{}
 	open   chan struct{}
@@ -273,8 +276,13 @@ func newOneShot(parent context.Context, k int) *oneShot {
 }
 
 func (o *oneShot) Done() <-chan struct{} {
+	// Done is also called from the goroutines context.WithCancel starts for coroutine threads:
+	// count under a lock and fire exactly once
+	o.mu.Lock()
+	defer o.mu.Unlock()
 	o.n++
-	if o.n == o.k {
+	if !o.fired && o.k > 0 && o.n >= o.k {
+		o.fired = true
 		return o.closed
 	}
 	return o.open
